@@ -972,6 +972,40 @@ def special_checks():
                                 want=w.reshape(-1).tolist(), violated=['diff differs from the k-th partial derivative']))
         except Exception as e:
             bad.append(dict(case='every row on a stationary slice', expression=name, violated=[f'diff raised {type(e).__name__}: {e}']))
+    # identically-zero results are zeros, also where the last surviving derivative is not finite (t*log(x) at x = 0, order 2 in t)
+    for name, f, xs, ts, k in (('t*log(x) at x = 0, order 2 in t', lambda x, t: t * torch.log(x), (0.0, 1.0, 2.0), (0.3, 0.6, -0.9), 2),
+                               ('t/x at x = 0, order 3 in t', lambda x, t: t / x, (0.0, 1.0, 0.0), (0.3, 0.6, -0.9), 3)):
+        try:
+            x, t = col(*xs), col(*ts)
+            got = diff(f(x, t), t, order=k).detach().reshape(-1).tolist()
+            if any(v != 0.0 for v in got):
+                bad.append(dict(case='order above the degree in t, non-finite lower derivative', expression=name, got=got, want=[0.0] * 3,
+                                violated=['diff is not identically zero']))
+        except Exception as e:
+            bad.append(dict(case='order above the degree in t', expression=name, violated=[f'{type(e).__name__}: {e}']))
+    # the field IS the coordinate: d t / d t = 1
+    try:
+        t = col(0.3, 0.6, -0.9)
+        got = diff(t, t).detach().reshape(-1).tolist()
+        if got != [1.0, 1.0, 1.0]:
+            bad.append(dict(case='diff(t, t)', got=got, want=[1.0, 1.0, 1.0], violated=['the derivative of a coordinate with respect to itself is not 1']))
+    except Exception as e:
+        bad.append(dict(case='diff(t, t)', violated=[f'{type(e).__name__}: {e}']))
+    # a graph that has been freed by backward(): diff must raise or be right, never invent a value
+    try:
+        x, t = col(0.5, -1.0, 2.0), col(0.3, 0.6, -0.9)
+        u = torch.sin(x * t)
+        u.sum().backward()
+        try:
+            got = diff(u, t)
+            want = (x * torch.cos(x * t)).detach()
+            if not torch.allclose(got.detach(), want, rtol=0, atol=1e-12):
+                bad.append(dict(case='diff on a graph already freed by backward()', got=got.detach().reshape(-1).tolist(), want=want.reshape(-1).tolist(),
+                                violated=['returned a value that is not the derivative (instead of raising)']))
+        except RuntimeError:
+            pass
+    except Exception as e:
+        bad.append(dict(case='diff on a freed graph', violated=[f'{type(e).__name__}: {e}']))
     # a derivative that is a constant can itself be differentiated (zeros) and back-propagated
     for name, f, k in (('3t + sin(x)', lambda x, t: 3 * t + torch.sin(x), 1), ('t^2 + x/2', lambda x, t: t * t + x / 2, 2), ('t', lambda x, t: t, 1)):
         try:
